@@ -111,12 +111,73 @@ def trig_value(fam, n, x):
             'cheby3': lambda: np.cos((n + 0.5) * th) / np.cos(th / 2), 'cheby4': lambda: np.sin((n + 0.5) * th) / np.sin(th / 2)}[fam]()
 
 
+# ---- shape parameters nearly, but not exactly, on a special case ----------------------------------------------------------
+# Every special case of the Jacobi family is a statement about exactly equal numbers: alpha = beta (ultraspherical: Legendre, Gegenbauer,
+# Chebyshev 1st / 2nd kind - no constant term in the recurrence), alpha = -beta and alpha + beta = -1 (0/0 in the closed form of the first
+# recurrence coefficients), the half-integer Chebyshev pairs, (0, 0), the Zernike / Qcon pairs (0, m).  A pair that is merely *close* to one
+# of them (relative 1e-12 .. 1e-4) is an ordinary pair and must be evaluated as such.  Unchanged code against scipy for all of these, orders
+# up to 120: <= 3e-12 of the largest value (RT = 1e-8).
+NEAR_RELS = [1e-4, -1e-4, 3e-5, -3e-5, 1e-5, -1e-5, 3e-6, -3e-6, 1e-6, -1e-6, 1e-7, -1e-9, 1e-12]
+NEAR_BASES = [-0.9, -0.75, -0.5, -0.25, 0.25, 0.5, 1, 1.5, 2, 3, 4, 6]
+CHEBY_PAIRS = [[-0.5, -0.5], [0.5, 0.5], [-0.5, 0.5], [0.5, -0.5]]
+
+
+def near_special_pairs():
+    base = st.one_of(st.sampled_from(NEAR_BASES), U.nice_float(-0.95, 6.0).filter(lambda a: abs(a) > 1e-3))
+    rel = st.sampled_from(NEAR_RELS)
+    small = st.sampled_from([0.0, 1e-4, -1e-5, 1e-6, -1e-8, 1e-9, 1e-12])
+    return st.one_of(
+        # alpha ~ beta, either one displaced
+        st.tuples(base, rel, st.booleans()).map(lambda t: [t[0], t[0] * (1 + t[1])] if t[2] else [t[0] * (1 + t[1]), t[0]]),
+        st.tuples(base, rel, st.booleans()).map(lambda t: [t[0], t[0] * (1 + t[1])] if t[2] else [t[0] * (1 + t[1]), t[0]]),
+        # alpha ~ -beta and alpha + beta ~ -1, relative displacements (c09.ab_pairs has the absolute ones down to 5e-17)
+        st.tuples(st.one_of(st.sampled_from([-0.9, -0.5, -0.25, 0.25, 0.5, 0.9]), U.nice_float(-0.9, 0.9).filter(lambda a: abs(a) > 1e-3)), rel).map(
+            lambda t: [t[0], -t[0] * (1 + t[1])]),
+        st.tuples(st.one_of(st.sampled_from([-0.9, -0.75, -0.5, -0.25, -0.1]), U.nice_float(-0.9, -0.1)), rel).map(lambda t: [t[0], (-1.0 - t[0]) * (1 + t[1])]),
+        # next to the Chebyshev half-integer pairs, to Legendre (0, 0) and to the Zernike / Qcon pairs (0, m)
+        st.tuples(st.sampled_from(CHEBY_PAIRS), rel, rel, st.sampled_from([0, 1, 2])).map(
+            lambda t: [t[0][0] * (1 + (t[1] if t[3] != 1 else 0.0)), t[0][1] * (1 + (t[2] if t[3] != 0 else 0.0))]),
+        st.tuples(small, small).filter(lambda t: t != (0.0, 0.0)).map(list),
+        st.tuples(small.filter(lambda d: d != 0), st.integers(1, 6), st.one_of(st.just(0.0), rel)).map(lambda t: [t[0], t[1] * (1 + t[2])]),
+    )
+
+
+def ab_pairs7():
+    """c09.ab_pairs (tabulated, general, on / absolutely next to the lines alpha + beta = 0, -1, far ends) and the nearly-special pairs"""
+    return st.one_of(ab_pairs(), ab_pairs(), near_special_pairs())
+
+
+def ab_class7(a, b):
+    """class label of a parameter pair; pairs next to (not on) an equality-defined special case get their own classes"""
+    base = ab_class(a, b)
+    if base in ('ab:tabulated', 'ab:sum=0', 'ab:sum=-1'):
+        return base
+
+    def close(p, q):
+        return abs(p - q) <= 1.5e-4 * max(1.0, abs(q))
+    if any(close(a, c[0]) and close(b, c[1]) for c in CHEBY_PAIRS):
+        return 'ab:near-chebyshev-pair'
+    if close(a, 0) and close(b, 0):
+        return 'ab:near-(0,0)'
+    if close(a, 0) and b >= 0.5 and close(b, round(b)) and (a != 0 or b != round(b)):
+        return 'ab:near-(0,m)'
+    if a != b and close(a, b):
+        return 'ab:nearly-equal'
+    if base == 'ab:near-special-line':
+        return base
+    if close(a, -b):
+        return 'ab:near-alpha=-beta:relative'
+    if close(a + b, -1.0):
+        return 'ab:near-sum=-1:relative'
+    return base
+
+
 FAMS = ['jacobi', 'jacobi', 'jacobi', 'legendre', 'cheby1', 'cheby2', 'cheby3', 'cheby4', 'hermite_He', 'hermite_H', 'laguerre', 'laguerre']
 
 
 def fam_params(fam):
     if fam == 'jacobi':
-        return ab_pairs()
+        return ab_pairs7()
     if fam == 'laguerre':
         return st.one_of(st.sampled_from([0, 0.5, 1, 2, -0.5, -0.99, 6.0]), U.nice_float(-0.99, 6.0)).map(lambda a: [a])
     return st.just([])
@@ -145,7 +206,7 @@ def check_values(case, ctx):
     xarg = present(x, shape, v)
     ctx.label(fam, n_class(n), shape_label(shape), 'edge' if case['edge'] else 'interior', 'size>2^16' if size_of(shape) > 65536 else 'size<=2^16')
     if fam == 'jacobi':
-        ctx.label(ab_class(*p))
+        ctx.label(ab_class7(*p))
     nt = var_labels(ctx, v, shape)
     ctx.nt(nt or n >= 6 or isinstance(shape, str) or len(shape) != 1 or (fam == 'jacobi' and ab_class(*p) != 'ab:tabulated') or
            (fam == 'laguerre' and p[0] not in (0, 0.5, 1)))
@@ -352,6 +413,22 @@ def check_xy(case, ctx):
                     lambda: ctx.call(hopkins, a, b, c, rarg, targ, harg), verify)
 
 
+# a boolean option as callers actually hold it: the object True / False, a numpy bool (an element of a boolean array, the result of a
+# comparison of numpy scalars), or 1 / 0.  Truthy is truthy: every routine documents 'bool' and tests the truth value.
+FLAG_KINDS = ['bool', 'bool', 'bool', 'np.bool_', 'comparison', 'int']
+
+
+def flag_as(value, how):
+    value = bool(value)
+    if how == 'np.bool_':
+        return np.array([True, False])[0 if value else 1]
+    if how == 'comparison':
+        return np.float64(1.0) > 0 if value else np.float64(1.0) < 0
+    if how == 'int':
+        return 1 if value else 0
+    return value
+
+
 # ---- Zernike -------------------------------------------------------------------------------------------
 def zernike_radial_exact(n, am, r):
     """R_n^|m|(r) = sum_k (-1)^k (n-k)! / (k! ((n+|m|)/2-k)! ((n-|m|)/2-k)!) r^(n-2k), exact rational arithmetic"""
@@ -378,13 +455,15 @@ def strat_zernike(tier):
     nmax = {'quick': 30, 'thorough': 60}[tier]
     nm = st.one_of(nm_pairs_ext(nmax), nm_pairs_ext(nmax), nm_pairs_ext(nmax), nm_pairs_ext(nmax, ZERNIKE_HIGH))   # incl. the extremes m = +-n, 0 / +-1
     return st.fixed_dictionaries({'nm': nm, 'norm': st.booleans(), 'shape': point_shapes(), 'edge': st.booleans(), 'seed': U.seeds,
-                                  'v': variants(('f64', 'f32', 'int')), 'alias': ALIAS})
+                                  'v': variants(('f64', 'f32', 'int')), 'alias': ALIAS, 'norm_as': st.sampled_from(FLAG_KINDS)})
 
 
 def check_zernike(case, ctx):
     """zernike_nm(n, m, r, t, norm) == N_nm R_n^|m|(r) cos(m t) | sin(|m| t), R from the explicit factorial sum, N = sqrt(2(n+1)/(1+delta_m0))."""
     from prysm.polynomials import zernike_nm, zernike_norm
     (n, m), norm, shape = case['nm'], case['norm'], case['shape']
+    norm_as = case.get('norm_as', 'bool')
+    narg = flag_as(norm, norm_as)          # what is handed over as norm=; `norm` stays the plain bool the reference is built from
     am = abs(m)
     v = var_of(case, ('f64', 'f32', 'int'))
     # integer-typed radii are accepted by the unchanged zernike_nm only when the radial Jacobi order (n-|m|)/2 is >= 1 (order 0
@@ -406,9 +485,10 @@ def check_zernike(case, ctx):
     if alias:
         t, tbase, targ = r, rbase, rarg
     ctx.label(n_class(n), 'm=0' if m == 0 else 'm<0' if m < 0 else 'm>0', 'norm' if norm else 'no-norm', shape_label(shape),
-              'edge' if case['edge'] else 'interior', 'm=+-n' if am == n and n else 'm-inner', 'r-is-t' if alias else 'r-and-t-separate')
+              'edge' if case['edge'] else 'interior', 'm=+-n' if am == n and n else 'm-inner', 'r-is-t' if alias else 'r-and-t-separate',
+              'norm-as:' + norm_as)
     nt = var_labels(ctx, v, shape)
-    ctx.nt(nt or n >= 6 or isinstance(shape, str) or len(shape) != 1 or alias)
+    ctx.nt(nt or n >= 6 or isinstance(shape, str) or len(shape) != 1 or alias or norm_as != 'bool')
     if v['pre32']:
         r32 = as32(rarg)
         call(ctx, 'float32', zernike_nm, n, m, r32, r32 if alias else as32(targ), norm=norm)
@@ -416,16 +496,16 @@ def check_zernike(case, ctx):
     N = math.sqrt(2 * (n + 1) / (2 if m == 0 else 1)) if norm else 1.0
     want_full = N * zernike_radial_exact(n, am, rbase) * az
     want = shaped(want_full, shape)
-    bucket = 'zernike_nm:%s%s' % ('m=0' if m == 0 else 'm!=0', ':r-is-t' if alias else '')
+    bucket = 'zernike_nm:%s%s%s' % ('m=0' if m == 0 else 'm!=0', ':r-is-t' if alias else '', '' if norm_as == 'bool' else ':norm-given-as-' + norm_as)
     rt = rtol_of(v, n, RT)
 
     def verify(got, bucket):
         U.check_shape(got, np.shape(want), bucket, 'zernike_nm(%d,%d) for r of shape %s' % (n, m, shape))
-        U.check_close(got, want, rt, bucket, 'zernike_nm(n=%d, m=%d, norm=%s, r: %s %s) vs explicit radial sum' % (n, m, norm, kind, shape_label(shape)), atol=rt * N)
-    got = call(ctx, 'm=0' if m == 0 else 'm!=0', zernike_nm, n, m, rarg, targ, norm=norm)
+        U.check_close(got, want, rt, bucket, 'zernike_nm(n=%d, m=%d, norm=%r, r: %s %s) vs explicit radial sum' % (n, m, narg, kind, shape_label(shape)), atol=rt * N)
+    got = call(ctx, 'm=0' if m == 0 else 'm!=0', zernike_nm, n, m, rarg, targ, norm=narg)
     verify(got, bucket)
-    reuse_check(ctx, v, bucket, got, (rarg, targ), lambda: ctx.call(zernike_nm, n + 2, m, rarg, targ, norm=not norm),
-                lambda: ctx.call(zernike_nm, n, m, rarg, targ, norm=norm), verify)
+    reuse_check(ctx, v, bucket, got, (rarg, targ), lambda: ctx.call(zernike_nm, n + 2, m, rarg, targ, norm=flag_as(not norm, norm_as)),
+                lambda: ctx.call(zernike_nm, n, m, rarg, targ, norm=narg), verify)
     zn = ctx.call(zernike_norm, n, m)
     ctx.require(abs(zn - math.sqrt(2 * (n + 1) / (2 if m == 0 else 1))) <= 1e-12 * zn, 'zernike_norm',
                 'zernike_norm(%d,%d) = %r' % (n, m, zn))
@@ -525,7 +605,7 @@ def strat_jacobi_gram(tier):
     N = {'quick': 40, 'thorough': 120}[tier]
     fam = st.sampled_from(['jacobi', 'jacobi', 'jacobi', 'legendre', 'cheby1', 'cheby2', 'cheby3', 'cheby4'])
     return fam.flatmap(lambda f: st.fixed_dictionaries({
-        'fam': st.just(f), 'p': ab_pairs() if f == 'jacobi' else st.just([]), 'N': st.one_of(st.integers(1, N), st.integers(1, 12)),
+        'fam': st.just(f), 'p': ab_pairs7() if f == 'jacobi' else st.just([]), 'N': st.one_of(st.integers(1, N), st.integers(1, 12)),
         'layout': st.sampled_from(['C', 'strided', 'column'])}))
 
 
@@ -540,7 +620,7 @@ def check_jacobi_gram(case, ctx):
         N = min(N, 40)
     ctx.label(fam, 'N<=12' if N <= 12 else 'N<=40' if N <= 40 else 'N>40')
     if fam == 'jacobi':
-        ctx.label(ab_class(a, b))
+        ctx.label(ab_class7(a, b))
     ctx.nt(True)
     ctx.tally('gram_entries', (N + 1) ** 2)
     xg, wg = sps.roots_jacobi(N + 1, a, b)
@@ -581,7 +661,7 @@ def weight_ref(a, b, x):
 
 
 def strat_weight(tier):
-    return st.fixed_dictionaries({'p': ab_pairs(), 'p_as': st.sampled_from(['python', 'python', 'np64', '0-d']), 'shape': point_shapes(), 'edge': st.booleans(),
+    return st.fixed_dictionaries({'p': ab_pairs7(), 'p_as': st.sampled_from(['python', 'python', 'np64', '0-d']), 'shape': point_shapes(), 'edge': st.booleans(),
                                   'seed': U.seeds, 'v': variants()})
 
 
@@ -606,7 +686,7 @@ def check_weight(case, ctx):
     conv = {'python': lambda q: q, 'np64': np.float64, '0-d': lambda q: np.array(float(q))}[how]
     aarg, barg = conv(a), conv(b)
     sym = 'alpha=beta' if a == b else 'alpha!=beta'
-    ctx.label(sym, ab_class(a, b), shape_label(shape), 'edge' if edge else 'interior', 'params-as:' + how,
+    ctx.label(sym, ab_class7(a, b), shape_label(shape), 'edge' if edge else 'interior', 'params-as:' + how,
               'negative-exponent' if min(a, b) < 0 else 'exponents>=0')
     var_labels(ctx, v, shape)
     ctx.nt(True)
@@ -1037,7 +1117,8 @@ def strat_seq(tier):
         'kind': st.just('1d'), 'fam': st.just(fam), 'ns': _order_list(tier), 'p': fam_params(fam), 'npts': st.integers(1, 9), 'seed': U.seeds,
         'pre32': st.booleans(), 'shape': shp, 'v': vv}))
     zern = st.fixed_dictionaries({'kind': st.just('zernike'), 'nms': st.lists(nm_pairs_ext(nmax), min_size=1, max_size=8), 'both_signs': st.booleans(),
-                                  'norm': st.booleans(), 'npts': st.integers(1, 9), 'seed': U.seeds, 'shape': shp, 'v': variants(('f64', 'f32'))})
+                                  'norm': st.booleans(), 'npts': st.integers(1, 9), 'seed': U.seeds, 'shape': shp, 'v': variants(('f64', 'f32')),
+                                  'norm_as': st.sampled_from(FLAG_KINDS)})
     q2d = st.fixed_dictionaries({'kind': st.just('q2d'), 'nms': st.lists(st.tuples(st.integers(0, 8), st.one_of(st.integers(-8, 8), st.sampled_from([-16, 16]))).map(list),
                                                                          min_size=1, max_size=7),
                                  'npts': st.integers(1, 9), 'seed': U.seeds, 'shape': shp, 'v': variants(('f64', 'f32'))})
@@ -1105,15 +1186,18 @@ def check_seq(case, ctx):
         if case['both_signs']:
             nms = nms + [[n, -m] for n, m in nms if m != 0]        # both (n,+m) and (n,-m) in one call
         norm = case['norm']
+        norm_as = case.get('norm_as', 'bool')
+        narg = flag_as(norm, norm_as)
         v = var_of(case, ('f64', 'f32'))
         rarg, rr, shape = seq_points(case, v, 0, 1, 31)
         targ, tt, _ = seq_points(case, v, -math.pi, math.pi, 32)
-        ctx.label('seq:zernike', 'norm' if norm else 'no-norm', 'both-signs' if case['both_signs'] else 'as-drawn', shape_label(shape), 'nms-as:' + v['ns_as'])
+        ctx.label('seq:zernike', 'norm' if norm else 'no-norm', 'both-signs' if case['both_signs'] else 'as-drawn', shape_label(shape), 'nms-as:' + v['ns_as'],
+                  'norm-as:' + norm_as)
         var_labels(ctx, v, shape)
         nmarg = [tuple(e) for e in nms] if v['ns_as'] == 'list' else tuple(tuple(e) for e in nms) if v['ns_as'] == 'tuple' else np.array(nms)
         full = (len(nms),) + shape_tuple(shape)
         if v['pre32']:
-            call(ctx, 'float32', P.zernike_nm_seq, nmarg, as32(rarg), as32(targ), norm=norm)
+            call(ctx, 'float32', P.zernike_nm_seq, nmarg, as32(rarg), as32(targ), norm=narg)
         wants = []
         for n, m in nms:
             am = abs(m)
@@ -1126,14 +1210,14 @@ def check_seq(case, ctx):
             U.check_shape(got, full, 'zernike_nm_seq' + suffix)
             for k, (n, m) in enumerate(nms):
                 rt = rtol_of(v, n, RT)
-                U.check_close(got[k], wants[k][0], rt, 'zernike_nm_seq:%s%s' % ('norm' if norm else 'no-norm', suffix),
-                              'zernike_nm_seq(%s, norm=%s, r: %s %s)[%d] = (n=%d, m=%d) vs explicit radial sum' % (nms, norm, v['xkind'], shape_label(shape), k, n, m),
+                U.check_close(got[k], wants[k][0], rt, 'zernike_nm_seq:%s%s%s' % ('norm' if norm else 'no-norm', '' if norm_as == 'bool' else ':given-as-' + norm_as, suffix),
+                              'zernike_nm_seq(%s, norm=%r, r: %s %s)[%d] = (n=%d, m=%d) vs explicit radial sum' % (nms, narg, v['xkind'], shape_label(shape), k, n, m),
                               atol=rt * wants[k][1])
-        got = call(ctx, 'seq', P.zernike_nm_seq, nmarg, rarg, targ, norm=norm)
+        got = call(ctx, 'seq', P.zernike_nm_seq, nmarg, rarg, targ, norm=narg)
         verify(got, '')
         other = [tuple(e) for e in reversed(nms)] + [(4, 2)]
-        reuse_check(ctx, v, 'zernike_nm_seq', got, (rarg, targ), lambda: ctx.call(P.zernike_nm_seq, other, rarg, targ, norm=not norm),
-                    lambda: ctx.call(P.zernike_nm_seq, nmarg, rarg, targ, norm=norm), lambda g, b: verify(g, b[len('zernike_nm_seq'):]))
+        reuse_check(ctx, v, 'zernike_nm_seq', got, (rarg, targ), lambda: ctx.call(P.zernike_nm_seq, other, rarg, targ, norm=flag_as(not norm, norm_as)),
+                    lambda: ctx.call(P.zernike_nm_seq, nmarg, rarg, targ, norm=narg), lambda g, b: verify(g, b[len('zernike_nm_seq'):]))
         return
     if kind == 'q2d':
         nms = [[n, m] for n, m in case['nms']]
